@@ -13,9 +13,31 @@ EXPLANATION = ("Completeness as normal-form identities: the prover functions' ou
                "consequences of the extracted response term.")
 
 
+def cofactor(S, p, atom):
+    """q with p == q * atom (atom a single group-element atom occurring linearly in every monomial), or None."""
+    from ..alg import Poly
+    pa = S.alg.poly(atom)
+    if len(pa) != 1:
+        return None
+    (m0, c0), = pa.items()
+    if c0 != 1 or len(m0) != 1 or m0[0][1] != 1:
+        return None
+    a = m0[0][0]
+    q = Poly()
+    if not p:
+        return None
+    for m, c in p.items():
+        d = dict(m)
+        if d.get(a) != 1:
+            return None
+        del d[a]
+        q[tuple(sorted(d.items(), key=lambda kv: repr(kv[0])))] = c
+    return S.alg.poly_term(q)
+
+
 def run(rep):
     prog = rep.prog
-    rep.rule("resp-wiring", "generate_proof_commitments / generate_proof_response implement R_resp: C = commit(msg, fresh bf), cs_i = caller's Some(x) else a fresh draw, T = commit(cs, fresh bcs), rs_i = c*m_i + cs_i, bfr = c*bf + bcs, the proof copies C and T")
+    rep.rule("resp-wiring", "generate_proof_commitments / generate_proof_response implement R_resp: C = commit(msg, bf), cs_i = caller's Some(x) else a fresh draw, T = commit(cs, bcs), rs_i = c*m_i + cs_i, bfr = c*bf + bcs, the proof copies C and T")
     rep.rule("complete", "verify(honest proof) normalises to TRUE (side conditions: signature randomisers non-zero)")
     rep.rule("same-challenge", "transcript(builder) == transcript(proof) for the four builder/proof pairs")
     rep.rule("patterns", "documented constraint patterns are identities of the response term: partial opening, equality, sum, public addition, public product, range link")
@@ -35,10 +57,11 @@ def run(rep):
     T = com_element(S, P[3][roles["T"]])
     bfr = P[3][roles["bfr"]]
     rs = P[3][roles["rs"]]
-    pc = S.alg.poly(C)
-    bfs = [a for a in pc.atoms() if a[0] == "rand" and a[1] == "scalar"]
+    # the blinding factor is whatever multiplies h in C (its freshness is C14's business, not completeness')
+    bf0 = cofactor(S, S.alg.poly(("sub", C, ip(gs, msgv, "N"))), h)
+    bfs = [bf0] if bf0 is not None else []
     facts = {}
-    facts["C = commit(msg, fresh bf)"] = len(bfs) == 1 and S.same(C, r_commit(h, gs, msgv, bfs[0], "N"))
+    facts["C = commit(msg, bf)"] = len(bfs) == 1 and S.same(C, r_commit(h, gs, msgv, bfs[0], "N"))
     ccs = method(prog, CPB, "conjunction_commitment_scalars")
     cs = S.call(ccs, [B]) if ccs is not None else None
     if cs is not None:
@@ -46,10 +69,12 @@ def run(rep):
         ccan = S.canon(cs)
         opts = ("E", S.canon(arg(3)))
         facts["cs_i = Some(x) ? x : fresh"] = ccan[0] == "V" and ccan[1][0] == "ITE" and contains_term(ccan[1], opts) and contains_head(ccan[1], "rand")
-        bcs = [a for a in S.alg.poly(bfr).atoms() if a[0] == "rand" and a[1] == "scalar" and a not in bfs]
+        # the blinding commitment scalar is whatever multiplies h in T; the response must be c*bf + that scalar
+        bcs0 = cofactor(S, S.alg.poly(("sub", T, ip(gs, cs, "N"))), h)
+        bcs = [bcs0] if bcs0 is not None else []
+        facts["T = commit(cs, bcs)"] = len(bcs) == 1 and S.same(T, r_commit(h, gs, cs, bcs[0], "N"))
         facts["bfr = c*bf + bcs"] = len(bcs) == 1 and len(bfs) == 1 and S.same(bfr, ("add", ("mul", c, bfs[0]), bcs[0]))
-        if len(bcs) == 1:
-            facts["T = commit(cs, fresh bcs)"] = S.same(T, r_commit(h, gs, cs, bcs[0], "N"))
+        facts["bcs independent of the challenge"] = len(bcs) == 1 and not contains(S.canon(bcs[0]), S.canon(c))
     else:
         facts["accessor conjunction_commitment_scalars"] = False
     bad = [k for k, v in facts.items() if not v]
